@@ -167,5 +167,7 @@ func ValidIdentifier(s string) bool {
     // is easiest to do with our existing scanner-related infrastructure here
     // and nobody should be validating identifiers in a tight loop.
     tokens := scanTokens([]byte(s), "", hcl.Pos{}, scanIdentOnly)
-    return len(tokens) == 2 && tokens[0].Type == TokenIdent && tokens[1].Type == TokenEOF
+    // The identifier token has to cover the whole string: the scanner
+    // silently skips a leading byte order mark, which is not part of a name.
+    return len(tokens) == 2 && tokens[0].Type == TokenIdent && tokens[1].Type == TokenEOF && len(tokens[0].Bytes) == len(s)
 }
